@@ -37,6 +37,7 @@ Lemma standard_request_accepted cfg facts now r path p id date region service te
   mem_bytes B"host" (signed_header_names (p_signed_headers p)) = true ->
   all_sensitive_signed r (signed_header_names (p_signed_headers p)) = true ->
   ecdsa_streaming r = false ->
+  needs_body_hash r (p_presigned p) && r_body_err r = false ->
   verify facts (key_of secret date region service term)
     {| s_alg := p_alg p; s_ts := p_timestamp p; s_scope := join B"/" [date; region; service; term];
        s_cr := canonical_request_of (r_method r) (spec_canonical_uri path)
@@ -45,7 +46,7 @@ Lemma standard_request_accepted cfg facts now r path p id date region service te
                  (payload_line r (p_presigned p)) |} (p_signature p) = true ->
   middleware cfg facts now r = Accepted id.
 Proof.
-  intros Hp Hq H1 H2 H3 H4 H5 H6 H7 H8 H9 W1 W2 H10 H11 H13 H12.
+  intros Hp Hq H1 H2 H3 H4 H5 H6 H7 H8 H9 W1 W2 H10 H11 H13 HB H12.
   unfold middleware. rewrite Hq, Hp, (proj1 (canon_uri_standard path)).
   rewrite (not_anonymous r p id date region service term H1 H3).
   apply check_auth_accept_iff.
